@@ -572,5 +572,228 @@ theorem backtrack_sound {source t : Nat} {sol : Nat → Option (Branch α)} {fue
   simp at hout
   rw [hout]; exact hr
 
+/-! ### Consequences: shape of the route -/
+
+theorem pathTo_nil_iff {source : Nat} {sol : Nat → Option (Branch α)} {t : Nat}
+    {r : List (Branch α)} (h : PathTo source sol t r) : r = [] ↔ t = source := by
+  cases h with
+  | nil => simp
+  | snoc hv _ _ => simp [hv]
+
+theorem pathTo_head {source : Nat} {sol : Nat → Option (Branch α)} {t : Nat}
+    {r : List (Branch α)} (h : PathTo source sol t r) :
+    ∀ b, r.head? = some b → b.terminal = source := by
+  induction h with
+  | nil => intro b hb; simp at hb
+  | @snoc v b r hv hb hr ih =>
+    intro b' hb'
+    cases r with
+    | nil =>
+      simp at hb'
+      subst hb'
+      exact (pathTo_nil_iff hr).1 rfl
+    | cons x xs =>
+      apply ih
+      simpa using hb'
+
+theorem pathTo_last {I : Inst α} {source : Nat} {s : SState α} (hinv : TreeInv I source s)
+    {t : Nat} {r : List (Branch α)} (h : PathTo source s.sol t r) :
+    ∀ b, r.getLast? = some b → I.keyV b.edge = t := by
+  cases h with
+  | nil => intro b hb; simp at hb
+  | @snoc v b r hv hb hr =>
+    intro b' hb'
+    simp at hb'
+    subst hb'
+    exact (hinv.entry _ _ hb).1
+
+theorem pathTo_chain {I : Inst α} {source : Nat} {s : SState α} (hinv : TreeInv I source s)
+    {t : Nat} {r : List (Branch α)} (h : PathTo source s.sol t r) :
+    r.IsChain (fun a b => I.keyV a.edge = b.terminal) := by
+  induction h with
+  | nil => exact List.isChain_nil
+  | @snoc v b r hv hb hr ih =>
+    refine List.IsChain.append ih (List.isChain_singleton _) ?_
+    intro x hx y hy
+    simp at hy
+    subst hy
+    exact pathTo_last hinv hr x hx
+
+theorem pathTo_mem {source : Nat} {sol : Nat → Option (Branch α)} {t : Nat}
+    {r : List (Branch α)} (h : PathTo source sol t r) :
+    ∀ b ∈ r, ∃ v, v ≠ source ∧ sol v = some b := by
+  induction h with
+  | nil => intro b hb; simp at hb
+  | @snoc v b r hv hb hr ih =>
+    intro b' hb'
+    rcases List.mem_append.1 hb' with h | h
+    · exact ih b' h
+    · simp at h
+      subst h
+      exact ⟨v, hv, hb⟩
+
+theorem pathTo_entry {I : Inst α} {source : Nat} {s : SState α} (hinv : TreeInv I source s)
+    {t : Nat} {r : List (Branch α)} (h : PathTo source s.sol t r) :
+    ∀ b ∈ r, s.sol (I.keyV b.edge) = some b ∧ I.keyV b.edge ≠ source := by
+  intro b hb
+  obtain ⟨v, hv, hsol⟩ := pathTo_mem h b hb
+  rw [(hinv.entry v b hsol).1]
+  exact ⟨hsol, hv⟩
+
+/-- every key vertex on the path to `t` is `t` or has a strictly smaller label than `t` -/
+theorem pathTo_label {I : Inst α} {source : Nat} {s : SState α} (hinv : TreeInv I source s)
+    {t : Nat} {r : List (Branch α)} (h : PathTo source s.sol t r) :
+    ∀ b ∈ r, I.keyV b.edge = t ∨ LabelLt s (I.keyV b.edge) t := by
+  induction h with
+  | nil => intro b hb; simp at hb
+  | @snoc v b r hv hb hr ih =>
+    intro b' hb'
+    rcases List.mem_append.1 hb' with h | h
+    · right
+      have hp : LabelLt s b.terminal v := parent_label_lt hinv hb
+      rcases ih b' h with h1 | h1
+      · rw [h1]; exact hp
+      · exact h1.trans hp
+    · simp at h
+      subst h
+      exact Or.inl (hinv.entry _ _ hb).1
+
+theorem pathTo_keys_nodup {I : Inst α} {source : Nat} {s : SState α} (hinv : TreeInv I source s)
+    {t : Nat} {r : List (Branch α)} (h : PathTo source s.sol t r) :
+    (r.map (fun b => I.keyV b.edge)).Nodup := by
+  induction h with
+  | nil => simp
+  | @snoc v b r hv hb hr ih =>
+    rw [List.map_append, List.nodup_append]
+    refine ⟨ih, by simp, ?_⟩
+    intro x hx y hy
+    simp at hy
+    rw [hy, (hinv.entry _ _ hb).1]
+    obtain ⟨b', hb', rfl⟩ := List.mem_map.1 hx
+    have hp : LabelLt s b.terminal v := parent_label_lt hinv hb
+    rcases pathTo_label hinv hr b' hb' with h1 | h1
+    · rw [h1]; exact hp.ne
+    · exact (h1.trans hp).ne
+
+theorem pathTo_edges_nodup {I : Inst α} {source : Nat} {s : SState α} (hinv : TreeInv I source s)
+    {t : Nat} {r : List (Branch α)} (h : PathTo source s.sol t r) :
+    (r.map (·.edge)).Nodup := by
+  apply List.Nodup.of_map I.keyV
+  rw [List.map_map]
+  exact pathTo_keys_nodup hinv h
+
+theorem pathTo_length_le {I : Inst α} {source : Nat} {s : SState α} (hinv : TreeInv I source s)
+    {t : Nat} {r : List (Branch α)} (h : PathTo source s.sol t r) : r.length ≤ s.solSize := by
+  obtain ⟨keys, _, hklen, hkmem⟩ := hinv.keys
+  have hsub : r.map (fun b => I.keyV b.edge) ⊆ keys := by
+    intro x hx
+    obtain ⟨b, hb, rfl⟩ := List.mem_map.1 hx
+    apply (hkmem _).1
+    rw [(pathTo_entry hinv h b hb).1]; rfl
+  have := ((pathTo_keys_nodup hinv h).subperm hsub).length_le
+  simpa [hklen] using this
+
+/-- the summed cost of the path is at most the label of its end (telescoping `gu + c ≤ gv`) -/
+theorem pathTo_cost_le {I : Inst α} {source : Nat} {s : SState α} (hinv : TreeInv I source s)
+    {t : Nat} {r : List (Branch α)} (h : PathTo source s.sol t r) :
+    ∀ gt, s.g t = some gt → (r.map (fun b => b.access + b.traversal)).sum ≤ gt := by
+  induction h with
+  | nil =>
+    intro gt hgt
+    rw [hinv.g_source] at hgt
+    cases hgt
+    simp
+  | @snoc v b r hv hb hr ih =>
+    intro gt hgt
+    obtain ⟨_, _, _, _, ⟨gu, gv, hgu, hgv, hle⟩, _⟩ := hinv.entry v b hb
+    rw [hgt] at hgv
+    cases hgv
+    have := ih gu hgu
+    simp only [List.map_append, List.sum_append, List.map_cons, List.map_nil, List.sum_cons,
+      List.sum_nil, add_zero]
+    linarith
+
+/-- all the facts about a backtracked route -/
+structure RouteChain (I : Inst α) (source : Nat) (s : SState α) (t : Nat)
+    (route : List (Branch α)) : Prop where
+  /-- the route is empty exactly when the target is the source -/
+  nil_iff : route = [] ↔ t = source
+  /-- the first entry leaves the source -/
+  head_terminal : ∀ b, route.head? = some b → b.terminal = source
+  /-- the last entry is stored under the target -/
+  last_key : ∀ b, route.getLast? = some b → I.keyV b.edge = t
+  /-- consecutive entries chain -/
+  chain : route.IsChain (fun a b => I.keyV a.edge = b.terminal)
+  /-- each entry is expanded from its edge's `termV` end, of which the edge is an incident edge -/
+  term_eq : ∀ b ∈ route, I.termV b.edge = b.terminal ∧ b.edge ∈ I.incident b.terminal
+  /-- each entry is the tree entry of its key vertex -/
+  entry : ∀ b ∈ route, s.sol (I.keyV b.edge) = some b
+  /-- no key vertex is the source -/
+  key_ne_source : ∀ b ∈ route, I.keyV b.edge ≠ source
+  /-- key vertices are pairwise distinct -/
+  keys_nodup : (route.map (fun b => I.keyV b.edge)).Nodup
+  /-- edge ids are pairwise distinct -/
+  edges_nodup : (route.map (·.edge)).Nodup
+  /-- the route is no longer than the tree is large -/
+  length_le : route.length ≤ s.solSize
+
+theorem pathTo_routeChain {I : Inst α} {source : Nat} {s : SState α} (hinv : TreeInv I source s)
+    {t : Nat} {r : List (Branch α)} (h : PathTo source s.sol t r) : RouteChain I source s t r where
+  nil_iff := pathTo_nil_iff h
+  head_terminal := pathTo_head h
+  last_key := pathTo_last hinv h
+  chain := pathTo_chain hinv h
+  term_eq := by
+    intro b hb
+    obtain ⟨_, h2, h3, _⟩ := hinv.entry _ b (pathTo_entry hinv h b hb).1
+    exact ⟨h2, h3⟩
+  entry := fun b hb => (pathTo_entry hinv h b hb).1
+  key_ne_source := fun b hb => (pathTo_entry hinv h b hb).2
+  keys_nodup := pathTo_keys_nodup hinv h
+  edges_nodup := pathTo_edges_nodup hinv h
+  length_le := pathTo_length_le hinv h
+
+/-- index form of `RouteChain.chain`, with the `termV` reading of `terminal` -/
+theorem RouteChain.chain_getElem {I : Inst α} {source : Nat} {s : SState α} {t : Nat}
+    {route : List (Branch α)} (h : RouteChain I source s t route) (i : Nat)
+    (hi : i + 1 < route.length) :
+    I.keyV route[i].edge = route[i + 1].terminal ∧
+    I.keyV route[i].edge = I.termV route[i + 1].edge := by
+  have h1 := List.isChain_iff_getElem.1 h.chain i hi
+  exact ⟨h1, by rw [(h.term_eq _ (List.getElem_mem hi)).1]; exact h1⟩
+
+/-- `route_chain`: whatever `backtrack` returns on a state satisfying the invariant is a walk
+source ⇝ `t` through tree entries -/
+theorem route_chain {I : Inst α} {source : Nat} {s : SState α} (hinv : TreeInv I source s)
+    {t fuel : Nat} {route : List (Branch α)}
+    (h : backtrack source t s.sol fuel = .ok route) : RouteChain I source s t route :=
+  pathTo_routeChain hinv (backtrack_sound h)
+
+/-- `route_cost_le_label`: the summed cost of the route is at most the label of `t` -/
+theorem route_cost_le_label {I : Inst α} {source : Nat} {s : SState α} (hinv : TreeInv I source s)
+    {t fuel : Nat} {route : List (Branch α)} {gt : α}
+    (h : backtrack source t s.sol fuel = .ok route) (hgt : s.g t = some gt) :
+    (route.map (fun b => b.access + b.traversal)).sum ≤ gt :=
+  pathTo_cost_le hinv (backtrack_sound h) gt hgt
+
+/-- a vertex with a tree entry (or the source) is labelled -/
+theorem labelled_of_entry {I : Inst α} {source : Nat} {s : SState α} (hinv : TreeInv I source s)
+    {t : Nat} (ht : t = source ∨ (s.sol t).isSome) : ∃ gt, s.g t = some gt := by
+  rcases ht with rfl | ht
+  · exact ⟨0, hinv.g_source⟩
+  · obtain ⟨b, hb⟩ := Option.isSome_iff_exists.1 ht
+    obtain ⟨_, _, _, _, ⟨_, gv, _, hgv, _⟩, _⟩ := hinv.entry t b hb
+    exact ⟨gv, hgv⟩
+
+/-- `backtrack_ok`, `route_chain` and `route_cost_le_label` in one statement -/
+theorem backtrack_spec {I : Inst α} {source : Nat} {s : SState α} (hinv : TreeInv I source s)
+    {t : Nat} (ht : t = source ∨ (s.sol t).isSome) :
+    ∃ route gt, backtrack source t s.sol (s.solSize + 1) = .ok route ∧
+      RouteChain I source s t route ∧ s.g t = some gt ∧
+      (route.map (fun b => b.access + b.traversal)).sum ≤ gt := by
+  obtain ⟨route, hp, hrun⟩ := backtrack_ok hinv ht
+  obtain ⟨gt, hgt⟩ := labelled_of_entry hinv ht
+  exact ⟨route, gt, hrun, pathTo_routeChain hinv hp, hgt, pathTo_cost_le hinv hp gt hgt⟩
+
 end SearchTree
 end Compass
